@@ -2,6 +2,8 @@ package response
 
 import (
 	"fmt"
+	"mime"
+	"net/mail"
 	"strings"
 )
 
@@ -109,9 +111,30 @@ func parseAddressList(addresses string) string {
 		return "NIL"
 	}
 
-	// Simple parser - split by comma for multiple addresses
-	addrs := strings.Split(addresses, ",")
 	var addrStructs []string
+
+	// Read the header as an RFC 5322 address list: a comma or an angle bracket
+	// inside a quoted display name does not separate addresses, and quoted
+	// pairs are decoded. The display name is sent as an encoded word again
+	// when it is not plain ASCII.
+	if list, err := mail.ParseAddressList(addresses); err == nil && len(list) > 0 {
+		for _, a := range list {
+			mailbox, host := a.Address, ""
+			if at := strings.LastIndex(a.Address, "@"); at != -1 {
+				mailbox, host = a.Address[:at], a.Address[at+1:]
+			}
+			addrStructs = append(addrStructs, fmt.Sprintf("(%s NIL %s %s)",
+				QuoteOrNIL(mime.QEncoding.Encode("utf-8", a.Name)),
+				QuoteOrNIL(mailbox),
+				QuoteOrNIL(host),
+			))
+		}
+		return "(" + strings.Join(addrStructs, " ") + ")"
+	}
+
+	// The header is not a well-formed address list: split by comma and take
+	// what looks like a name and an address from every element
+	addrs := strings.Split(addresses, ",")
 
 	for _, addr := range addrs {
 		addr = strings.TrimSpace(addr)
